@@ -7,9 +7,17 @@
 //   c20 invariants <seed> <n> <outbase>   clone / reverse / normalize: dumps, area, length, counts, dimension,
 //                                         equalsExact / equalsIdentical; the driver checks them; expect = "ok"
 //   c20 compare    <seed> <n> <outbase>   pairs of geometries; expect = signs of a.compareTo(b), b.compareTo(a), a.compareTo(a)
+//   c20 pos        <seed> <n> <outbase>   point on surface / interior point: rectilinear (staircase, L, U, comb, cross) shells and
+//                                         holes on the integer grid whose horizontal edges sit on candidate scan lines, several
+//                                         holes with collinear edges, lattice symmetries; multipolygons, collections, lines, points;
+//                                         same line format as construct (sections K, G, S); expect = "ok"
+//   c20 sequence   <seed> <n> <outbase>   programs over registers (an object, its clones / reverses / normalised copies /
+//                                         elements) with observing calls in between and equalsExact / equalsIdentical /
+//                                         compareTo queries; the driver answers from the stateless model; expect = "ok"
 //   c20 replay <stream> <file>            run the case lines in <file> (only the input part is used), print "case\nexpect"
 #include "gtree.h"
 #include <geos_c.h>
+#include <set>
 #include <geos/algorithm/MinimumBoundingCircle.h>
 #include <geos/algorithm/MinimumDiameter.h>
 #include <geos/algorithm/MinimumAreaRectangle.h>
@@ -368,6 +376,366 @@ static void streamConstruct(Ctx& cx, Rng& r, long n, Out& out) {
 }
 
 
+
+// ---------------------------------------------------------------- pos stream (point on surface / interior point)
+// x-monotone rectilinear polygon: column k spans [xs[k], xs[k+1]] x [lo[k], hi[k]], consecutive columns overlap in a
+// segment of positive length
+struct Hist { std::vector<int> xs, lo, hi;
+    size_t n() const { return lo.size(); }
+    std::vector<XY> ring() const {
+        std::vector<XY> v;
+        auto add = [&](int x, int y) { if (v.empty() || v.back().x != x || v.back().y != y) v.push_back(XY{(double) x, (double) y}); };
+        for (size_t k = 0; k < n(); k++) { add(xs[k], lo[k]); add(xs[k + 1], lo[k]); }
+        for (size_t k = n(); k-- > 0;) { add(xs[k + 1], hi[k]); add(xs[k], hi[k]); }
+        if (v.size() > 1 && v.front().x == v.back().x && v.front().y == v.back().y) v.pop_back();
+        v.push_back(v.front());
+        return v;
+    }
+    void shift(int dx, int dy) { for (auto& x : xs) x += dx; for (auto& y : lo) y += dy; for (auto& y : hi) y += dy; }
+    void scale(int f) { for (auto& x : xs) x *= f; for (auto& y : lo) y *= f; for (auto& y : hi) y *= f; }
+    int minY() const { return *std::min_element(lo.begin(), lo.end()); }
+    int maxY() const { return *std::max_element(hi.begin(), hi.end()); }
+};
+
+// integer 2x2 matrix of determinant +-1 (lattice symmetry) + translation + scale
+struct Lat { int a = 1, b = 0, c = 0, d = 1, tx = 0, ty = 0, f = 1;
+    XY operator()(const XY& p) const { return XY{f * (a * p.x + b * p.y) + tx, f * (c * p.x + d * p.y) + ty}; } };
+
+struct PGen {
+    Rng& r; Out& out;
+    PGen(Rng& rr, Out& o) : r(rr), out(o) {}
+
+    Hist shape(int kind, int W, int H, bool stat = true, bool midStep = false) {
+        // W: largest column width, H: height
+        Hist h; int n;
+        auto cols = [&](int k) { h.xs.clear(); int x = 0; h.xs.push_back(0); for (int i = 0; i < k; i++) { x += r.range(1, W); h.xs.push_back(x); } };
+        switch (kind) {
+        case 0: cols(1); h.lo = {0}; h.hi = {H}; if (stat) out.count("shape_rectangle"); break;
+        case 1: { cols(2); int a = midStep ? H / 2 : r.range(1, H - 1); bool up = r.chance(50); h.lo = {0, up ? 0 : H - a}; h.hi = {H, up ? a : H};
+                  if (r.chance(50)) { std::swap(h.lo[0], h.lo[1]); std::swap(h.hi[0], h.hi[1]); } if (stat) out.count("shape_L"); break; }
+        case 2: { cols(3); int a = midStep ? H / 2 : r.range(1, H - 1); bool up = r.chance(50); h.lo = {0, up ? 0 : a, 0}; h.hi = {H, up ? a : H, H};
+                  if (r.chance(30)) h.hi[2] = r.range(h.lo[1] + 1, H); if (stat) out.count("shape_U"); break; }
+        case 3: { n = r.range(3, 7); cols(n); int a = r.range(1, H - 1);
+                  for (int i = 0; i < n; i++) { h.lo.push_back(0); h.hi.push_back(i % 2 == 0 ? H : (r.chance(70) ? a : r.range(1, H - 1))); } if (stat) out.count("shape_comb"); break; }
+        case 4: { n = r.range(2, 5); cols(n); int s = r.range(1, 2), t = s + r.range(1, 3);
+                  for (int i = 0; i < n; i++) { h.lo.push_back(i * s); h.hi.push_back(i * s + t); }
+                  if (r.chance(50)) { std::reverse(h.lo.begin(), h.lo.end()); std::reverse(h.hi.begin(), h.hi.end()); } if (stat) out.count("shape_staircase"); break; }
+        case 5: { cols(3); int a = r.range(1, std::max(1, H / 2 - 1)), b = r.range(a + 1, H - 1); h.lo = {a, 0, r.chance(70) ? a : r.range(0, b - 1)}; h.hi = {b, H, r.chance(70) ? b : r.range(h.lo[2] + 1, H)};
+                  if (stat) out.count("shape_cross"); break; }
+        default: { n = r.range(2, 6); cols(n); int mid0 = r.range(1, H - 1);
+                  for (int i = 0; i < n; i++) { h.lo.push_back(r.range(0, mid0 - 1)); h.hi.push_back(r.range(mid0 + 1, H + 1)); }
+                  // consecutive columns overlap around mid0 by construction
+                  if (stat) out.count("shape_random_histogram"); }
+        }
+        return h;
+    }
+    Lat lattice() {
+        Lat L;
+        int steps = r.chance(35) ? 0 : r.range(1, 3);
+        for (int i = 0; i < steps; i++) {
+            int a = L.a, b = L.b, c = L.c, d = L.d, k = r.range(-2, 2);
+            switch (r.below(5)) {
+            case 0: L.a = c; L.b = d; L.c = a; L.d = b; out.count("lat_transpose"); break;              // swap rows
+            case 1: L.a = -a; L.b = -b; out.count("lat_mirror_x"); break;
+            case 2: L.c = -c; L.d = -d; out.count("lat_mirror_y"); break;
+            case 3: L.a = a + k * c; L.b = b + k * d; out.count("lat_shear_x"); break;                  // x += k y : horizontal edges stay horizontal
+            default: L.c = c + k * a; L.d = d + k * b; out.count("lat_shear_y"); break;
+            }
+        }
+        L.f = r.chance(70) ? 1 : r.range(2, 3);
+        L.tx = r.range(-20, 20); L.ty = r.range(-20, 20);
+        return L;
+    }
+
+    // a polygon on the grid: shell + holes placed by a cell raster so that they lie strictly inside and apart;
+    // returns the rings in grid coordinates (untransformed); `touch` allows point/edge contacts (validity is then up to GEOSisValid)
+    std::vector<std::vector<XY>> gridPolygon(int& width, int& height) {
+        int H = r.range(3, 12), kind = (int) r.below(9);
+        Hist sh = shape(kind, r.range(2, 6), H);
+        int f = r.chance(50) ? 2 : 1; sh.scale(f);              // doubled shells: the midpoints of their ordinates are grid lines
+        int x0 = sh.xs.front(), x1 = sh.xs.back(), y0 = sh.minY(), y1 = sh.maxY();
+        width = x1 - x0; height = y1 - y0;
+        int GW = x1 - x0 + 2, GH = y1 - y0 + 2;
+        // cell (i, j) = [x0-1+i, x0+i] x [y0-1+j, y0+j]; 1 = shell interior, 2.. = hole
+        std::vector<std::vector<int>> cell((size_t) GW, std::vector<int>((size_t) GH, 0));
+        for (size_t k = 0; k < sh.n(); k++) for (int x = sh.xs[k]; x < sh.xs[k + 1]; x++) for (int y = sh.lo[k]; y < sh.hi[k]; y++) cell[(size_t) (x - x0 + 1)][(size_t) (y - y0 + 1)] = 1;
+        std::vector<std::vector<XY>> rings; rings.push_back(sh.ring());
+        // candidate scan lines: centre of the extent, midpoints between consecutive distinct vertex ordinates (when on the grid)
+        std::set<int> lev(sh.lo.begin(), sh.lo.end()); lev.insert(sh.hi.begin(), sh.hi.end());
+        std::vector<int> levels(lev.begin(), lev.end()), cand;
+        if ((y0 + y1) % 2 == 0) cand.push_back((y0 + y1) / 2);
+        for (size_t i = 0; i + 1 < levels.size(); i++) if ((levels[i] + levels[i + 1]) % 2 == 0) cand.push_back((levels[i] + levels[i + 1]) / 2);
+        for (int y : levels) if (y > y0 && y < y1) cand.push_back(y);
+        // a palette of levels shared by the holes of this polygon (so that their horizontal edges are collinear)
+        std::vector<int> palette;
+        for (int i = 0; i < 4; i++) palette.push_back((!cand.empty() && r.chance(60)) ? cand[r.below(cand.size())] : r.range(y0 + 1, std::max(y0 + 1, y1 - 1)));
+        int wantHoles = r.chance(25) ? 0 : r.range(1, 4);
+        bool touch = r.chance(8);
+        int holes = 0;
+        for (int attempt = 0; attempt < 30 * wantHoles && holes < wantHoles; attempt++) {
+            int hk = (int) r.below(8); int hH = r.range(1, std::max(1, std::min(8, height - 2)));
+            if (hH < 2 && hk != 0) hk = 0;
+            // symmetric step holes: an L / U shaped hole whose step edge is at its own mid-height, put on a candidate line
+            bool sym = !cand.empty() && height >= 4 && r.chance(35);
+            if (sym) { hk = r.chance(60) ? 1 : 2; hH = 2 * r.range(1, std::max(1, std::min(4, (height - 2) / 2))); }
+            Hist ho = shape(hk == 3 ? 6 : hk, r.range(1, r.chance(50) ? 2 : 4), std::max(2, hH), false, sym);
+            if (hk == 0) { ho.hi[0] = hH; }
+            if (ho.xs.back() >= width || ho.maxY() - ho.minY() >= height) continue;
+            int dx = x0 + r.range(1, std::max(1, width - ho.xs.back() - 1));
+            int dy; bool onCand = false;
+            // put one of the hole's levels (preferably an intermediate one) on a palette level
+            std::set<int> hl(ho.lo.begin(), ho.lo.end()); hl.insert(ho.hi.begin(), ho.hi.end());
+            std::vector<int> hlev(hl.begin(), hl.end());
+            if (sym) { dy = (r.chance(60) ? cand[0] : cand[r.below(cand.size())]) - (ho.minY() + hH / 2); onCand = true; }
+            else if (r.chance(75)) {
+                size_t pick = hlev.size() > 2 && r.chance(70) ? 1 + r.below(hlev.size() - 2) : r.below(hlev.size());
+                dy = palette[r.below(palette.size())] - hlev[pick]; onCand = true;
+            } else dy = y0 + r.range(1, std::max(1, height - (ho.maxY() - ho.minY()) - 1)) - ho.minY();
+            ho.shift(dx, dy);
+            // raster test
+            bool okp = true; std::vector<std::pair<int, int>> cells;
+            for (size_t k = 0; k < ho.n() && okp; k++) for (int x = ho.xs[k]; x < ho.xs[k + 1] && okp; x++) for (int y = ho.lo[k]; y < ho.hi[k] && okp; y++) {
+                int i = x - x0 + 1, j = y - y0 + 1;
+                if (i < 1 || j < 1 || i >= GW - 1 || j >= GH - 1) { okp = false; break; }
+                for (int di = -1; di <= 1 && okp; di++) for (int dj = -1; dj <= 1 && okp; dj++) {
+                    if (touch && (di != 0 || dj != 0)) continue;
+                    int c = cell[(size_t) (i + di)][(size_t) (j + dj)];
+                    if (c != 1) okp = false;
+                }
+                cells.push_back({i, j});
+            }
+            if (!okp) continue;
+            holes++;
+            if (onCand) out.count("hole_level_on_candidate_line");
+            if (sym) out.count("hole_step_at_own_mid_height");
+            for (auto& c : cells) cell[(size_t) c.first][(size_t) c.second] = 1 + holes;
+            auto ring = ho.ring(); if (r.chance(50)) std::reverse(ring.begin(), ring.end());
+            rings.push_back(ring);
+            if (hlev.size() > 2) out.count("hole_with_step_edge");
+        }
+        out.count("holes_" + std::to_string(holes));
+        if (touch) out.count("in_polygon_touching_allowed");
+        if (r.chance(50)) std::reverse(rings[0].begin(), rings[0].end());
+        // ring start anywhere
+        for (auto& rg : rings) if (r.chance(60) && rg.size() > 3) { rg.pop_back(); std::rotate(rg.begin(), rg.begin() + (long) r.below(rg.size()), rg.end()); rg.push_back(rg.front()); }
+        return rings;
+    }
+    template <class F> static std::string polyTokMapped(const std::vector<std::vector<XY>>& rings, F&& f, double dx, double dy) {
+        std::vector<std::vector<XY>> o;
+        for (auto& rg : rings) { std::vector<XY> w; for (auto& p : rg) w.push_back(f(XY{p.x + dx, p.y + dy})); if (w.size() > 1) w.back() = w.front(); o.push_back(w); }
+        return polyTok(o);
+    }
+    template <class F> std::string lineTok(F&& f, int ox, int oy) {
+        int n = r.range(1, 6); std::vector<XY> v;
+        int kind = (int) r.below(6);
+        for (int i = 0; i < n; i++) v.push_back(XY{(double) (ox + r.range(0, 8)), (double) (oy + r.range(0, 8))});
+        if (kind == 0) { for (auto& p : v) p = v[0]; out.count("in_line_zero_length"); }
+        else if (kind == 1 && n >= 3) { v.push_back(v.front()); out.count("in_line_closed"); }
+        else if (kind == 2) { for (size_t i = 0; i < v.size(); i++) v[i] = XY{(double) (ox + (int) i * 2), (double) oy}; out.count("in_line_straight"); }
+        else if (kind == 3) { v.resize(std::min<size_t>(v.size(), 2)); out.count("in_line_short"); }
+        else out.count("in_line_random");
+        if (v.size() == 1) v.push_back(v[0]);
+        std::vector<XY> w; for (auto& p : v) w.push_back(f(p));
+        return "L " + seqTok(w);
+    }
+    template <class F> std::string pointTok(F&& f, int ox, int oy) { return "P xy 1 " + ptTok(f(XY{(double) (ox + r.range(0, 8)), (double) (oy + r.range(0, 8))})); }
+
+    // one geometry; `f` maps grid coordinates to output coordinates
+    template <class F> std::string geom(F&& f) {
+        int top = (int) r.below(20);
+        auto poly = [&](int ox, int oy, int& w, int& h) { auto rings = gridPolygon(w, h); return polyTokMapped(rings, f, ox, oy); };
+        int w = 0, h = 0;
+        if (top < 9) { out.count("in_polygon"); return poly(0, 0, w, h); }
+        if (top < 13) {   // multipolygon: side by side, stacked, or diagonal
+            int k = r.range(1, 4), ox = 0, oy = 0, mode = (int) r.below(3); std::string s;
+            for (int i = 0; i < k; i++) { s += " " + poly(ox, oy, w, h); int gap = r.chance(50) ? 1 : r.range(2, 5); if (mode != 1) ox += w + gap; if (mode != 0) oy += h + gap; }
+            out.count("in_multipolygon"); return "MY " + std::to_string(k) + s;
+        }
+        if (top < 16) {   // mixed collection (highest dimension rule), possibly nested, with empties
+            int k = r.range(1, 4), ox = 0; std::string s; int cnt = 0;
+            for (int i = 0; i < k; i++) {
+                switch (r.below(7)) {
+                case 0: case 1: s += " " + poly(ox, 0, w, h); ox += w + r.range(1, 4); break;
+                case 2: s += " " + lineTok(f, ox, r.range(-3, 3)); break;
+                case 3: s += " " + pointTok(f, ox, r.range(-3, 3)); break;
+                case 4: { static const char* E[] = {"P xy 0", "L xy 0", "Y 1 xy 0", "MP 0", "ML 0", "MY 0", "GC 0"}; s += std::string(" ") + E[r.below(7)]; break; }
+                case 5: { int m = r.range(1, 2); std::string t; for (int j = 0; j < m; j++) { t += " " + poly(ox, 0, w, h); ox += w + r.range(1, 4); } s += " MY " + std::to_string(m) + t; break; }
+                default: { std::string t = " " + lineTok(f, ox, 0) + " " + pointTok(f, ox, 0); bool wp = r.chance(50); if (wp) { t += " " + poly(ox, 0, w, h); ox += w + 2; } s += " GC " + std::to_string(wp ? 3 : 2) + t; }
+                }
+                cnt++;
+            }
+            out.count("in_collection_mixed"); return "GC " + std::to_string(cnt) + s;
+        }
+        if (top < 18) {   // lines
+            int k = r.range(1, 4); std::string s;
+            if (k == 1 && r.chance(50)) { out.count("in_linestring"); return lineTok(f, 0, 0); }
+            for (int i = 0; i < k; i++) s += " " + (r.chance(10) ? std::string("L xy 0") : lineTok(f, r.range(-5, 5), r.range(-5, 5)));
+            out.count("in_multiline"); return "ML " + std::to_string(k) + s;
+        }
+        int k = r.range(1, 6); std::string s;
+        for (int i = 0; i < k; i++) s += " " + (r.chance(10) ? std::string("P xy 0") : pointTok(f, r.range(-5, 5), r.range(-5, 5)));
+        out.count("in_multipoint"); return "MP " + std::to_string(k) + s;
+    }
+};
+
+static std::string posCase(Ctx& cx, const std::string& kind, const std::string& gl, bool& ok) {
+    std::unique_ptr<Geometry> g;
+    try { g = buildGeom(gl, cx.gf.get()); } catch (std::exception&) { ok = false; return ""; }
+    const GEOSGeometry* cg = (const GEOSGeometry*) g.get();
+    std::string c = "K " + kind + " | G " + gl;
+    GEOSGeometry* p = GEOSPointOnSurface_r(cx.h, cg); char v = GEOSisValid_r(cx.h, cg);
+    c += " | S " + (p ? geomOrErr(p) + " " + (v == 1 ? "1" : "0") : std::string("err"));
+    ok = true; return c;
+}
+
+static void streamPos(Ctx& cx, Rng& r, long n, Out& out) {
+    for (long i = 0; i < n; i++) {
+        PGen gen(r, out);
+        bool grid = r.chance(85);
+        out.count(grid ? "coords_grid" : "coords_full_precision");
+        std::string gl;
+        if (grid) { Lat L = gen.lattice(); gl = "0 " + gen.geom(L); }
+        else { Sim s = randomSim(r, false); gl = "0 " + gen.geom(s); }
+        bool ok = false; std::string c = posCase(cx, grid ? "grid" : "full", gl, ok);
+        if (!ok) { out.count("rejected_by_constructor"); continue; }
+        if (c.size() >= 2 && c.substr(c.size() - 2) == " 0") out.count("impl_says_invalid");
+        if (c.find(" err") != std::string::npos) out.count("impl_operation_error");
+        out.emit(c, "ok");
+    }
+}
+
+
+// ---------------------------------------------------------------- sequence stream
+static uint64_t fnv(const std::string& s) { uint64_t h = 0xcbf29ce484222325ULL; for (unsigned char ch : s) { h ^= ch; h *= 0x100000001b3ULL; } return h; }
+static std::string hex64(uint64_t u) { char b[20]; std::snprintf(b, sizeof b, "%016llx", (unsigned long long) u); return b; }
+static std::string dumpNoSrid(const Geometry* g) { std::vector<std::string> t; dumpG(g, t); std::string s; for (size_t i = 0; i < t.size(); i++) { if (i) s += ' '; s += t[i]; } return s; }
+static std::string hashGeom(GEOSGeometry* g) { if (!g) return "x"; std::string s = hex64(fnv(dumpNoSrid((const Geometry*) g))); delete (Geometry*) g; return s; }
+
+// "ints" (GEOSIntersects(g, g)) is understood by sequenceCase but not generated: RelateNG crashes on a collection of
+// overlapping polygons that have an empty hole ring (AdjacentEdgeLocator::addSections), which is not C20's business
+static const char* OBSERVERS[] = {"env", "envg", "xmin", "area", "len", "np", "ng", "dim", "emp", "dmp", "wkb", "hull", "ctr", "pos", "val", "simp", "nmc", "bnd", "crd"};
+static const int N_OBS = 19;
+
+// executes the program (ops without their results) and returns the case line with the results filled in
+static std::string sequenceCase(Ctx& cx, const std::string& kind, const std::string& gl, const std::vector<std::vector<std::string>>& prog, bool& ok) {
+    std::vector<std::unique_ptr<Geometry>> regs;
+    try { regs.push_back(buildGeom(gl, cx.gf.get())); } catch (std::exception&) { ok = false; return ""; }
+    GEOSContextHandle_t h = cx.h;
+    std::string c = "Q " + kind + " | G " + gl;
+    auto reg = [&](const std::string& t) -> Geometry* { size_t i = (size_t) std::stoul(t); return i < regs.size() ? regs[i].get() : nullptr; };
+    auto push = [&](GEOSGeometry* g) { regs.emplace_back((Geometry*) g); return std::string(g ? "ok" : "x"); };
+    for (auto& op : prog) {
+        if (op.empty()) continue;
+        const std::string& o = op[0]; std::string res;
+        if (o == "bd") { std::unique_ptr<Geometry> g; try { g = buildGeom(gl, cx.gf.get()); } catch (std::exception&) {} res = push((GEOSGeometry*) g.release()); }
+        else if (op.size() < 2) continue;
+        else {
+            Geometry* a = reg(op[1]); const GEOSGeometry* ga = (const GEOSGeometry*) a;
+            if (o == "cl") res = push(a ? GEOSGeom_clone_r(h, ga) : nullptr);
+            else if (o == "rv") res = push(a ? GEOSReverse_r(h, ga) : nullptr);
+            else if (o == "nm") { GEOSGeometry* n = a ? GEOSGeom_clone_r(h, ga) : nullptr; if (n && GEOSNormalize_r(h, n) != 0) { delete (Geometry*) n; n = nullptr; } res = push(n); }
+            else if (o == "sub") { const GEOSGeometry* e = (a && op.size() > 2) ? GEOSGetGeometryN_r(h, ga, std::stoi(op[2])) : nullptr; res = push(e ? GEOSGeom_clone_r(h, e) : nullptr); }
+            else if (o == "NM") { res = (a && GEOSNormalize_r(h, (GEOSGeometry*) a) == 0) ? "ok" : "x"; }
+            else if (o == "eqx" || o == "eqi" || o == "cmp") {
+                Geometry* b = op.size() > 2 ? reg(op[2]) : nullptr;
+                if (!a || !b) res = "x";
+                else if (o == "eqx") res = std::to_string((int) GEOSEqualsExact_r(h, ga, (const GEOSGeometry*) b, 0.0));
+                else if (o == "eqi") res = std::to_string((int) GEOSEqualsIdentical_r(h, ga, (const GEOSGeometry*) b));
+                else { int v = 0; try { v = a->compareTo(b); res = v < 0 ? "-1" : v > 0 ? "1" : "0"; } catch (std::exception&) { res = "x"; } }
+            }
+            else if (!a) res = "x";
+            else if (o == "env") { double x0, y0, x1, y1; res = GEOSGeom_getExtent_r(h, ga, &x0, &y0, &x1, &y1) == 1 ? hex(x0) + " " + hex(y0) + " " + hex(x1) + " " + hex(y1) : std::string("x"); }
+            else if (o == "envg") res = hashGeom(GEOSEnvelope_r(h, ga));
+            else if (o == "xmin") { double v; res = GEOSGeom_getXMin_r(h, ga, &v) == 1 ? hex(v) : std::string("x"); }
+            else if (o == "area") { double v; res = GEOSArea_r(h, ga, &v) == 1 ? hex(v) : std::string("x"); }
+            else if (o == "len") { double v; res = GEOSLength_r(h, ga, &v) == 1 ? hex(v) : std::string("x"); }
+            else if (o == "np") res = std::to_string(GEOSGetNumCoordinates_r(h, ga));
+            else if (o == "ng") res = std::to_string(GEOSGetNumGeometries_r(h, ga));
+            else if (o == "dim") res = std::to_string(GEOSGeom_getDimensions_r(h, ga));
+            else if (o == "emp") res = std::to_string((int) GEOSisEmpty_r(h, ga));
+            else if (o == "dmp") res = hex64(fnv(dumpNoSrid(a)));
+            else if (o == "wkb") { GEOSWKBWriter* w = GEOSWKBWriter_create_r(h); GEOSWKBWriter_setOutputDimension_r(h, w, 4); size_t sz = 0; unsigned char* b = GEOSWKBWriter_write_r(h, w, ga, &sz);
+                                   res = b ? hex64(fnv(std::string((const char*) b, sz))) : std::string("x"); if (b) GEOSFree_r(h, b); GEOSWKBWriter_destroy_r(h, w); }
+            else if (o == "hull") res = hashGeom(GEOSConvexHull_r(h, ga));
+            else if (o == "ctr") res = hashGeom(GEOSGetCentroid_r(h, ga));
+            else if (o == "pos") res = hashGeom(GEOSPointOnSurface_r(h, ga));
+            else if (o == "val") res = std::to_string((int) GEOSisValid_r(h, ga));
+            else if (o == "simp") res = std::to_string((int) GEOSisSimple_r(h, ga));
+            else if (o == "nmc") { GEOSGeometry* n = GEOSGeom_clone_r(h, ga); if (n && GEOSNormalize_r(h, n) != 0) { delete (Geometry*) n; n = nullptr; } res = hashGeom(n); }
+            else if (o == "ints") res = std::to_string((int) GEOSIntersects_r(h, ga, ga));
+            else if (o == "bnd") res = hashGeom(GEOSBoundary_r(h, ga));
+            else if (o == "crd") { const CoordinateXY* q = nullptr; try { q = a->getCoordinate(); } catch (std::exception&) {} res = q ? hex(q->x) + " " + hex(q->y) : std::string("x"); }
+            else continue;
+        }
+        c += " | O";
+        for (auto& t : op) c += " " + t;
+        c += " " + res;
+    }
+    ok = true; return c;
+}
+
+static bool hasCurveTag(const std::string& gl) { for (auto& t : splitToks(gl)) if (t == "C" || t == "K" || t == "U") return true; return false; }
+
+static std::vector<std::vector<std::string>> randomProgram(Rng& r, Out& out, const std::string& gl) {
+    std::vector<std::vector<std::string>> prog;
+    bool curvy = hasCurveTag(gl);
+    int nreg = 1, len = r.range(4, 14);
+    auto R = [&]() { return std::to_string(r.below((uint64_t) nreg)); };
+    auto query = [&]() {
+        std::string i = R(), j = R();
+        if (nreg > 1 && r.chance(70)) while (j == i) j = R();
+        static const char* Q[] = {"eqi", "eqx", "cmp"};
+        const char* q = Q[r.below(3)];
+        prog.push_back({q, i, j}); out.count(std::string("op_") + q);
+        if (r.chance(60)) prog.push_back({q, j, i});
+    };
+    for (int k = 0; k < len; k++) {
+        int w = (int) r.below(100);
+        if (w < 22 && nreg < 6) {   // a new register
+            int t = (int) r.below(10);
+            if (t < 4) { prog.push_back({"cl", R()}); out.count("op_clone"); }
+            else if (t < 6) { prog.push_back({"rv", R()}); out.count("op_reverse"); }
+            else if (t < 8) { prog.push_back({"nm", R()}); out.count("op_normalized_copy"); }
+            else if (t < 9) { prog.push_back({"bd"}); out.count("op_build_again"); }
+            else { prog.push_back({"sub", R(), std::to_string(r.below(3))}); out.count("op_element"); }
+            nreg++;
+        } else if (w < 27 && !curvy) { prog.push_back({"NM", R()}); out.count("op_normalize_in_place"); }
+        else if (w < 70) { const char* o = OBSERVERS[r.below((uint64_t) N_OBS)]; prog.push_back({o, R()}); out.count("op_observe"); }
+        else query();
+    }
+    // closing round: every pair both ways
+    for (int i = 0; i < nreg; i++) for (int j = i + 1; j < nreg; j++) {
+        static const char* Q[] = {"eqi", "eqx", "cmp"};
+        for (auto q : Q) { prog.push_back({q, std::to_string(i), std::to_string(j)}); prog.push_back({q, std::to_string(j), std::to_string(i)}); }
+    }
+    return prog;
+}
+
+static void streamSequence(Ctx& cx, Rng& r, long n, Out& out) {
+    for (long i = 0; i < n; i++) {
+        GenCfg cfg; cfg.weird = false; cfg.mixedDims = false; cfg.maxDepth = 2; cfg.maxPts = 6;
+        cfg.gridInts = r.chance(60); cfg.curves = r.chance(8);
+        GTreeGen gen(r, cfg, &out);
+        std::string base;
+        // collections of every kind are what carries cached state: ask for them directly half of the time
+        if (r.chance(50)) {
+            bool z = r.chance(40), m = r.chance(30); int srid = r.chance(50) ? 0 : r.range(1, 40000);
+            static const char* T[] = {"MP", "ML", "MY", "GC"}; int t = (int) r.below(4);
+            base = std::to_string(srid) + " " + gen.multi(T[t], 0, z, m, t == 3 ? 5 : t); out.count(std::string("top_") + T[t]);
+        } else base = gen.geom();
+        auto v = splitToks(base); Toks tk(v); int srid = std::stoi(tk.next());
+        TNode root;
+        try { root = parseNode(tk); } catch (std::exception&) { out.count("gen_unparsable"); continue; }
+        if (r.chance(50)) degenerate(root, r, out);
+        std::string gl = lineOf(srid, root);
+        auto prog = randomProgram(r, out, gl);
+        bool ok = false; std::string c = sequenceCase(cx, cfg.gridInts ? "grid" : "full", gl, prog, ok);
+        if (!ok) { out.count("rejected_by_constructor"); continue; }
+        out.count("program_ops", (long) prog.size());
+        out.emit(c, "ok");
+    }
+}
+
 // ---------------------------------------------------------------- invariants stream
 static std::string invariantsCase(Ctx& cx, const std::string& kind, const std::string& gl, bool& ok) {
     std::unique_ptr<Geometry> g;
@@ -485,6 +853,26 @@ int main(int argc, char** argv) {
                 for (auto& sct : secs) { if (sct.rfind("K ", 0) == 0) kind = sct.substr(2); if (sct.rfind("G ", 0) == 0) gl = sct.substr(2); }
                 bool ok = false; std::string c = constructCase(cx, kind, gl, ok);
                 std::cout << (ok ? c : std::string("rejected")) << "\n";
+            } else if (st == "pos") {
+                auto secs = splitBar(line, 0); std::string kind = "grid", gl;
+                for (auto& sct : secs) { if (sct.rfind("K ", 0) == 0) kind = sct.substr(2); if (sct.rfind("G ", 0) == 0) gl = sct.substr(2); }
+                bool ok = false; std::string c = posCase(cx, kind, gl, ok);
+                std::cout << (ok ? c : std::string("rejected")) << "\n";
+            } else if (st == "sequence") {
+                // sections: Q kind | G geom | O op args result…  (the recorded results are dropped and recomputed)
+                auto secs = splitBar(line, 0); std::string kind = "grid", gl; std::vector<std::vector<std::string>> prog;
+                for (auto& sct : secs) {
+                    if (sct.rfind("Q ", 0) == 0) kind = sct.substr(2);
+                    else if (sct.rfind("G ", 0) == 0) gl = sct.substr(2);
+                    else if (sct.rfind("O ", 0) == 0) {
+                        auto t = splitToks(sct.substr(2)); if (t.empty()) continue;
+                        size_t nargs = t[0] == "bd" ? 0 : (t[0] == "sub" || t[0] == "eqx" || t[0] == "eqi" || t[0] == "cmp") ? 2 : 1;
+                        if (t.size() < 1 + nargs) continue;
+                        prog.push_back(std::vector<std::string>(t.begin(), t.begin() + 1 + (long) nargs));
+                    }
+                }
+                bool ok = false; std::string c = sequenceCase(cx, kind, gl, prog, ok);
+                std::cout << (ok ? c : std::string("rejected")) << "\n";
             } else if (st == "invariants") {
                 auto secs = splitBar(line, 0); std::string kind = "grid", gl;
                 for (auto& sct : secs) { if (sct.rfind("I ", 0) == 0) kind = sct.substr(2); if (sct.rfind("G ", 0) == 0) gl = sct.substr(2); }
@@ -502,6 +890,8 @@ int main(int argc, char** argv) {
         else if (stream == "construct") streamConstruct(cx, r, n, out);
         else if (stream == "compare") streamCompare(cx, r, n, out);
         else if (stream == "invariants") streamInvariants(cx, r, n, out);
+        else if (stream == "pos") streamPos(cx, r, n, out);
+        else if (stream == "sequence") streamSequence(cx, r, n, out);
         else { std::fprintf(stderr, "unknown stream %s\n", stream.c_str()); return 2; }
     }
     GEOS_finish_r(cx.h);
